@@ -189,6 +189,7 @@ func convert(k reflect.Kind, s string) (interface{}, error) {
 type reqSpec struct {
 	multipart bool                           // form values travel as multipart/form-data
 	stream    bool                           // the body is a stream of unknown length (a chunked request on a streaming server)
+	emptyJSON bool                           // JSON media type, empty body
 	ctCase    int                            // spelling of the media type: 0 lower case, 1 mixed case, 2 upper-case type with a parameter
 	vals      map[string]map[string][]string // source -> key -> values
 }
@@ -243,6 +244,12 @@ func buildReq(rs reqSpec, fields []fieldSpec) (*protocol.Request, param.Params) 
 		b, _ := json.Marshal(m)
 		req.Header.SetContentTypeBytes([]byte([]string{"application/json", "Application/JSON", "APPLICATION/json; charset=utf-8"}[rs.ctCase]))
 		setBody(req, b, rs.stream)
+	} else if rs.emptyJSON {
+		// a JSON media type on a request whose body turns out to be empty (a chunked
+		// request with only the last chunk, or Content-Length: 0): no body source, the
+		// other sources bind as usual
+		req.Header.SetContentTypeBytes([]byte("application/json"))
+		setBody(req, nil, rs.stream)
 	} else if len(rs.vals["form"]) > 0 {
 		f := url.Values{}
 		for k, vs := range rs.vals["form"] {
@@ -525,6 +532,7 @@ func genReqSpec(r *mon.Rand, fields []fieldSpec) reqSpec {
 	// an urlencoded body)
 	rs.multipart = r.Chance(3)
 	rs.stream = r.Chance(5)
+	rs.emptyJSON = len(rs.vals["json"]) == 0 && len(rs.vals["form"]) == 0 && r.Chance(4)
 	if r.Chance(3) {
 		rs.ctCase = 1 + r.Intn(2)
 	}
@@ -532,7 +540,7 @@ func genReqSpec(r *mon.Rand, fields []fieldSpec) reqSpec {
 }
 
 func (rs reqSpec) desc() string {
-	return fmt.Sprintf("%v multipart=%v stream-of-unknown-length=%v media-type-spelling=%d", rs.vals, rs.multipart, rs.stream, rs.ctCase)
+	return fmt.Sprintf("%v multipart=%v stream-of-unknown-length=%v media-type-spelling=%d json-media-type-with-empty-body=%v", rs.vals, rs.multipart, rs.stream, rs.ctCase, rs.emptyJSON)
 }
 
 func typeOf(fields []fieldSpec) reflect.Type {
